@@ -64,14 +64,14 @@ def plans(tier):
         return P
     # the room with a side branch and a merge, every registered version: every behaviour with at most two deviations
     for ver in VERSIONS:
-        P += [(3, ver, 0, 2, "Limits0123", "FromAll", "SlicesAll", 2, 1)]
+        P += [(3, ver, 0, 2, "Limits0123" if ver in ("1", "10", "12") else "Limits013", "FromAll", "SlicesAll", 2, 1)]
     for ver in ("1", "10", "12"):
         P += [(3, ver, 0, 3, "Limits24", "FromAll", "SlicesAll", 3, 0),     # three servers, three deviations of the protocol
               (1, ver, 1, 2, "Limits3", "FromAll", "SlicesAll", 1, 1),      # every room with one more event, single deviations
               (2, ver, 0, 2, "Limits0135", "FromTip", "SlicesAll", 2, 2)]   # second prefix, up to two deviations of the world
     for ver in ("10", "12"):
         P += [(1, ver, 1, 2, "Limits2", "FromAll", "SlicesAll", 2, 0)]      # every room with one more event, two deviations
-    P += [(3, "10", 0, 3, "Limits3", "FromTip", "SlicesAll", 3, 1)]         # three deviations, one of them in the world
+    P += [(3, "10", 0, 3, "Limits2", "FromTip", "SlicesAll", 3, 1)]         # three deviations, one of them in the world
     return P
 
 
@@ -188,7 +188,7 @@ def run(ctx):
 
     def one(job):
         p, cfg = job
-        return ctx.tlc("Backfill_gen", cfg, workers=per, timeout=1500, heap="6g")
+        return ctx.tlc("Backfill_gen", cfg, workers=per, timeout=1500, heap="4g")
 
     def asbuilt():
         # the as-built acceptance rule against ReturnedSafe (a verdict about the DESIGN; the replay is what speaks about the code)
@@ -204,37 +204,34 @@ def run(ctx):
                                  % (f, inv, fr.violated))
         return "%s->%s" % fi
 
+    # the behaviours of a plan are replayed as soon as the plan is done (and dropped: a thorough run produces some
+    # 300 000 records); the other TLC jobs go on meanwhile
+    cov, nrec = set(), 0
     with ThreadPoolExecutor(max_workers=par) as ex:
         futs = [ex.submit(one, j) for j in jobs]
         fab = ex.submit(asbuilt)
         ffs = [ex.submit(fault, fi) for fi in faults]
-        results = [f.result() for f in futs]
+        for f in futs:
+            r = f.result()
+            if not r.records:
+                raise MachineryError("Backfill_gen produced no behaviour for one of the plans")
+            cov |= _coverage(r.records)
+            nrec += len(r.records)
+            ctx.replay_and_compare("x04", r.records, pkg=PKG)
+            r.records = None
         ab = fab.result()
         ctx.notes["planted_model_faults_caught"] = [f.result() for f in ffs]
+    # (Grow: rooms of 7 events are rooms the room model built on top of the first creation prefix)
+    dead = sorted((WANT | {"room-of-7-events", "room-of-10-events"} | ({"answer=gap", "room-of-8-events"} if tier == "thorough" else set())) - cov)
+    if dead:
+        raise MachineryError("Backfill.tla: within the bounds of the %s tier no behaviour shows %s (dead action / disjunct)" % (tier, dead))
+    ctx.log("Backfill: %d behaviours from %d plans replayed; record-derived coverage complete (%d features)" % (nrec, len(ps), len(cov)))
     ctx.notes["asbuilt"] = (
         "TLC refutes %s for SigTolerance=first (an event that fails the signature check is never put through the auth "
         "checks: with a destroyed signature an event the auth rules reject is passed on)" % ab.violated
         if ab.violated else "SigTolerance=first satisfies ReturnedSafe within Backfill_asbuilt.cfg")
     if ab.violated not in (None, "ReturnedSafe"):
         raise MachineryError("Backfill_asbuilt.cfg: expected ReturnedSafe to be refuted (or to hold), TLC reports %s" % ab.violated)
-    import json
-    seen, recs = set(), []
-    for r in results:
-        if not r.records:
-            raise MachineryError("Backfill_gen produced no behaviour for one of the plans")
-        for rec in r.records:
-            k = json.dumps(rec, sort_keys=True)
-            if k not in seen:
-                seen.add(k)
-                recs.append(rec)
-    cov = _coverage(recs)
-    # (Grow: rooms of 7 events are rooms the room model built on top of the first creation prefix)
-    dead = sorted((WANT | {"room-of-7-events", "room-of-10-events"} | ({"answer=gap", "room-of-8-events"} if tier == "thorough" else set())) - cov)
-    if dead:
-        raise MachineryError("Backfill.tla: within the bounds of the %s tier no behaviour shows %s (dead action / disjunct)" % (tier, dead))
-    ctx.log("Backfill: %d distinct behaviours from %d plans; record-derived coverage complete (%d features)" % (len(recs), len(ps), len(cov)))
-    ctx.replay_and_compare("x04", recs, pkg=PKG)
-
     ctx.exhaustive = True
     ctx.notes["rule"] = (
         "every completed behaviour of Backfill.tla over (room of the plan x from IDs {none, newest event, two branch tips} x limit "
